@@ -284,8 +284,13 @@ class Contract:
         REGISTRY[target] = self
 
     @property
+    def base(self):
+        """the function under contract ("mod:qual"), without the "#label" of a second contract on the same function"""
+        return self.target.split("#")[0]
+
+    @property
     def qual(self):
-        return self.target.split(":")[1]
+        return self.target.split(":")[1].split("#")[0]
 
     def loops_for(self, fname):
         if fname == self.qual:
